@@ -182,8 +182,8 @@ V("O12.4", ["C12", "C02", "C05", "C11"], "c12_callsite", expect_verified=11,
 V("O02.ind", ["C02", "C11", "C09", "C10", "C12"], "c02_dispatch", expect_verified=3,
   functions=["Compiler::compile_expression (whole function, 14 arms outlined)", "Compiler::compile_statement (whole function, 6 arms outlined)"],
   desc="closes the structural induction of the code generator: for EVERY kind of expression / statement (real match; an arm that no unit holds is a lost anchor) success implies the generator contract gen_post that all arms assume of their recursive calls; each outlined arm's contract is taken from the unit that verifies the arm's real text (//@ASSUMES checks the clause and the precondition literally)")
-V("O02.blocks", ["C02", "C09", "C12", "C11", "C05"], "c02_blocks", expect_verified=2,
-  functions=["Compiler::compile_block_statement", "Compiler::compile_expression arm Expr::Function"],
+V("O02.blocks", ["C02", "C09", "C12", "C11", "C05"], "c02_blocks", expect_verified=3,
+  functions=["Compiler::compile_block_statement", "Compiler::compile_block_value", "Compiler::compile_expression arm Expr::Function"],
   desc="blocks: an empty block is one Null; every statement of a non-empty block is compiled in order, back to back, ONE SCOPE DEEPER, depth restored (names cease to exist at block end). Function definitions: jumped over; the body ALWAYS ends in ReturnValue / Return (control cannot run off its end); entry point = first byte of the body; slot count from the symbol table; body compiled in a fresh function context with parameters declared first and no enclosing loop visible (both restored); a named function is declared before its body and stored in its slot")
 K("O09.4k", ["C09", "C02"], "compiler", "c09_block_scope_twin", level="bounded", bound="blocks of 1..=3 statements (expression / stop / antwoord shapes)", needs_fmt_stub=False,
   functions=["Compiler::compile_block_statement"], desc="bounded twin of the block contract on the real function whatever its syntactic form: each statement exactly once, in order, one scope deeper, depth restored (added after seeded change C09-3 turned the Verus unit undecided)")
